@@ -90,6 +90,8 @@ type c16State struct {
 	badSeen  map[string]bool
 	lastCmds []string
 	dbg      bool
+	evOut     string // outcome / non-triviality of the EVENT (the probes of Check overwrite lastOut/nontriv)
+	evNontriv bool
 }
 
 func (s *c16State) fail(key, f string, a ...any) {
@@ -165,6 +167,12 @@ func (s *c16State) wantKernelMembers(id string) map[string]bool {
 
 func (s *c16State) onStep(what string) {
 	s.muts++
+	if p := strings.Split(what, " "); p[0] == "create" {
+		// a new set under an old name is a new set: earlier failed destroys of that name don't count
+		delete(s.delFailed, p[1])
+	} else if p[0] == "destroy" {
+		delete(s.restoreLeak, p[1])
+	}
 	needed := s.neededNames()
 	for name, old := range s.old {
 		id, ok := needed[name]
@@ -258,12 +266,14 @@ func (s *c16State) checkNoStale(where string, tolerateDelFailed bool) {
 		switch {
 		case !known && s.restoreLeak[name]:
 			// created by an `ipset restore` that then failed; Felix kept no record of it
-			kind += "-set-created-by-failed-restore-then-forgotten"
+			s.fail(kind+"-set-created-by-failed-restore-then-forgotten:"+where, "Felix-owned set %s is not desired but still in the kernel after the sync went quiet; kernel=%s", name, s.kernelString())
+			continue
 		case !known:
 			kind += "-set-unknown-to-felix"
 		case meta.DeleteFailed && !s.delFailed[name]:
 			// Felix skips it as "delete failed" although no destroy of it was ever attempted
-			kind += "-set-marked-delete-failed-without-any-failed-destroy"
+			s.fail(kind+"-set-marked-delete-failed-without-any-failed-destroy:"+where, "Felix-owned set %s is not desired but still in the kernel after the sync went quiet; kernel=%s", name, s.kernelString())
+			continue
 		default:
 			kind += "-set-known-to-felix"
 		}
@@ -489,6 +499,7 @@ func c16Apply(s *c16State, e c16Ev) {
 		panic("bad op " + e.Op)
 	}
 	s.key = s.computeKey()
+	s.evOut, s.evNontriv = s.lastOut, s.nontriv
 }
 
 func c16Replay(cfg c16Cfg, hist []c16Ev) *c16State {
@@ -777,8 +788,8 @@ func c16Spec(cfg c16Cfg, depth int, tree bool) *hbfs.Spec[*c16State, c16Ev] {
 		Enabled:    c16Enabled,
 		Check:      c16Check,
 		Key:        func(s *c16State) string { return s.key },
-		Nontrivial: func(s *c16State) bool { return s.nontriv },
-		Outcome:    func(s *c16State) string { return s.lastOut },
+		Nontrivial: func(s *c16State) bool { return s.evNontriv },
+		Outcome:    func(s *c16State) string { return s.evOut },
 		PanicKey:   c16PanicKey,
 		MaxDepth:   depth,
 		Workers:    6,
@@ -831,7 +842,7 @@ func TestVerif_C16(t *testing.T) {
 			return
 		}
 		// a written-out explored case
-		{
+		if err := vk.Catch(func() error {
 			s := c16NewState(quickCfg)
 			h := []c16Ev{{Op: "init", Init: "stale+want"}, {Op: "cycle"}, {Op: "set", ID: "a", Max: 8, M: []string{"10.0.0.2"}}}
 			for _, e := range h {
@@ -846,6 +857,9 @@ func TestVerif_C16(t *testing.T) {
 			c16Apply(s, ev)
 			c.Sample(map[string]any{"history": []string{h[0].String(), h[1].String(), h[2].String(), ev.String()},
 				"commands_issued_by_last_cycle": s.lastCmds, "kernel_after": s.kernelString(), "fault_points_of_that_cycle": len(pts)})
+			return nil
+		}); err != nil {
+			c.Violation(c16PanicKey(err.Error(), nil), map[string]any{"where": "sample history", "panic": err.Error()})
 		}
 		if c.Quick() {
 			hbfs.Explore(c, c16Spec(quickCfg, 4, false))
